@@ -42,7 +42,7 @@ def conformance(run: Run, maxcalls: int) -> list[dict]:
         f = os.path.join(run.dir, f"toksrc{si}.ndjson")
         cfg = ("INIT Init\nNEXT Next\nVIEW View\nINVARIANT IndexOK\nINVARIANT PushbackAtMostOne\nINVARIANT NoBlankDelivered\nINVARIANT ExhaustionIsError\n"
                "INVARIANT CaptureIsSlice\nINVARIANT Export\nPROPERTY CacheAppendOnly\nCHECK_DEADLOCK FALSE\n")
-        st = run_tlc(run, "TokenSource", cfg.replace("INIT Init\nNEXT Next\n", "SPECIFICATION Spec\n"), env={"OUT": f}, name=f"toksrc{si}", expect_violation=True,
+        st = run_tlc(run, "TokenSource", cfg.replace("INIT Init\nNEXT Next\n", "SPECIFICATION Spec\n"), env={"OUT": f}, name=f"toksrc{si}", expect_violation=True, workers=1,
                      consts={"Raw": raw, "MaxCalls": maxcalls})
         if st["violated"]:
             problems.append({"kind": "model_law_violated", "stream": src, "law": st["violated"]})
